@@ -346,6 +346,10 @@ def walker(draw, norb, nelec, restricted=False, frame=None):
     if variant != "generic":
         up = 0.6 * up + Ru
         dn = 0.6 * dn + Rd
+    else:
+        # still dominated by the drawn noise, but never exactly rank deficient when the draw shrinks to zero
+        up = up + 0.3 * Ru
+        dn = dn + 0.3 * Rd
     if variant == "scaled":
         su = np.array([10.0 ** draw(st.integers(-2, 2)) for _ in range(na)])
         up = up * su[None, :]
@@ -354,7 +358,7 @@ def walker(draw, norb, nelec, restricted=False, frame=None):
 
 
 @st.composite
-def hamiltonian(draw, norb, spin_dependent=False, nchol=None):
+def hamiltonian(draw, norb, spin_dependent=False, nchol=None, chol_kinds=("generic", "generic", "generic", "diagonal", "zero")):
     nchol = draw(st.integers(1, 3)) if nchol is None else nchol
     h0 = draw(st.sampled_from([0.0, 0.7, -3.25]))
     a = draw(real((norb, norb)))
@@ -364,7 +368,7 @@ def hamiltonian(draw, norb, spin_dependent=False, nchol=None):
         h1b = (b + b.T) / 2
     else:
         h1b = h1a.copy()
-    kind = draw(st.sampled_from(["generic", "generic", "generic", "diagonal", "zero"]))
+    kind = draw(st.sampled_from(list(chol_kinds)))
     c = draw(real((nchol, norb, norb))) * draw(st.sampled_from([1.0, 0.3, 0.3]))
     chol = (c + c.transpose(0, 2, 1)) / 2
     if kind == "diagonal":
